@@ -63,7 +63,7 @@ pub fn documents(thorough: bool) -> Vec<Doc> {
 		}
 	}
 	// (d') collections around the length-header / size-hint boundaries
-	for len in [15usize, 16, 17, 255, 256, 257, 4095, 4096, 4097, 65535, 65536] {
+	for len in [15usize, 16, 17, 255, 256, 257, 4095, 4096, 4097, 32768, 65535, 65536] {
 		if len > 5000 && !thorough {
 			continue;
 		}
@@ -176,6 +176,10 @@ pub fn run(ctx: &Ctx) -> CheckOutput {
 			let heavy = matches!(doc.family, "all-scalars" | "all-scalars-keys" | "floats" | "sized");
 			for src in F::ALL {
 				for st in 0..style_count(src) {
+					// the comment-and-indentation YAML styles only for the small documents
+					if src == F::Yaml && st >= 6 && !matches!(doc.family, "tree" | "strings" | "string-keys" | "depth") {
+						continue;
+					}
 					let Some(input) = spell_doc(src, &doc.v, Style(st)) else {
 						acc.t.count(&format!("unspellable:{}", src.name()));
 						continue;
